@@ -946,6 +946,11 @@ class Ref:
                     return ev
             elif c[0] == "y":
                 lit = c[1].encode("latin1")
+                if "bytes" in ctx.dnatives:
+                    # the format hands bytes over as they are (msgpack): the constant is compared with the raw object
+                    if isinstance(d, (bytes, bytearray)) and d == lit:
+                        return lit
+                    continue
                 try:
                     if base64.decodebytes(d.encode()) == lit:
                         return lit
